@@ -54,7 +54,7 @@ type Queue struct {
 }
 
 func New(opts Options) (*Queue, error) {
-	return &Queue{
+	q := &Queue{
 		cond:            sync.NewCond(&sync.Mutex{}),
 		clientID:        opts.ClientID,
 		max:             opts.MaxQueuedMsg,
@@ -66,7 +66,17 @@ func New(opts Options) (*Queue, error) {
 		inflightExpiry:  opts.InflightExpiry,
 		notifier:        opts.DefaultNotifier,
 		log:             server.LoggerWithField(zap.String("queue", "redis")),
-	}, nil
+	}
+	// The list may already hold the messages of a stored session (broker restart):
+	// without its length, messages added before the client reconnects would ignore the bound.
+	if opts.Pool != nil {
+		conn := opts.Pool.Get()
+		defer conn.Close()
+		if err := q.setLen(conn); err != nil {
+			return nil, err
+		}
+	}
+	return q, nil
 }
 
 func wrapError(err error) *codes.Error {
